@@ -111,6 +111,13 @@ func (C02) Run(tp *tape.Tape) core.Result {
 	}
 	// a generator whose bound and step are global variables: a loop body (or anything else that
 	// runs between two resumptions) may change them, and the generator must see the change
+	// generator factories: closures whose loop iterates directly over a captured variable; several of
+	// them consumed one after another in one statement run in recycled contexts under different
+	// closure frames
+	if step("upto = (n) -> () -> for i <- fromto(0, n) {\nyield i\n}") || step("updn = (n, m) -> () -> {\nfor i <- fromto(0, n) {\nyield i\n}\nfor j <- fromto(0, m) {\nyield m - j\n}\n}") ||
+		step("coll = (it) -> {\nr = []\nfor e <- it() {\nr = r + [e]\n}\nr\n}") {
+		goto done
+	}
 	if step("gqa = 3") || step("gqb = 1") || step("gng = (n) -> {\ni = 0\nwhile i < gqa {\nwrite(\"Y\" + toa(i) + \";\")\nyield i + n\nwrite(\"R\" + toa(gqa) + \",\" + toa(gqb) + \";\")\ni = i + gqb\n}\n}") {
 		goto done
 	}
@@ -158,6 +165,21 @@ func (C02) Run(tp *tape.Tape) core.Result {
 				}
 				r.Inc("F8.loop_function_under_padding", 1)
 				if step(inner) {
+					goto done
+				}
+				continue
+			case k == 3: // factory-made generators consumed one after another (and inside one another) in one statement
+				a, b, c := 1+tp.Draw(5), 1+tp.Draw(5), tp.Draw(4)
+				v := fmt.Sprintf("{\nta = upto(%d)\ntb = upto(%d)\ntc = updn(%d, %d)\nwrite(coll(ta))\nwrite(coll(tb))\nwrite(coll(tc))\nwrite(coll(ta))\n", a, b, c, a)
+				if tp.Bool() {
+					v += "for qa <- tb() {\nfor qb <- ta() {\nwrite(toa(qa) + \":\" + toa(qb) + \";\")\n}\n}\n"
+				}
+				if tp.Bool() {
+					v += "for qa, qb <- ta(), tc() {\nwrite(toa(qa) + \"=\" + toa(qb) + \";\")\n}\nwrite(coll(tb))\n"
+				}
+				v += "}"
+				r.Inc("F8.factory_generators_in_one_statement", 1)
+				if step(v) {
 					goto done
 				}
 				continue
